@@ -219,8 +219,12 @@ def run_shard(spec, R):
         nt = int(rng.integers(2, 6))
         kw = {}
         root, desc = make_image(rng, dim, shape=shape, payload=payload, series=series, time_kind=time_kind, nt=nt, nc=nc,
-                                origin_kind=str(rng.choice(["default", "user"])), dimensions=[float(10 ** rng.uniform(-1, 1)) for _ in range(dim)],
+                                origin_kind=str(rng.choice(["default", "user"])) if n % 4 else "default",
+                                # every fourth program: physical dimensions given as plain integers (the origin is derived)
+                                dimensions=[float(10 ** rng.uniform(-1, 1)) for _ in range(dim)] if n % 4 else [int(rng.integers(1, 9)) for _ in range(dim)],
                                 cls=cls, integer_valued=True)
+        if n % 4 == 0:
+            R.count("integer_dimensions_roots")
         meta = root_meta(root, desc)
         root_arr = root.img.copy()
         if time_kind == "date":
@@ -353,7 +357,7 @@ def run_shard(spec, R):
         payload = str(rng.choice(["scalar", "vector"]))
         time_kind = ["date", "time", "none"][n % 3]
         how = ["append", "stack"][(n // 3) % 2]
-        count = int(rng.integers(2, 6))
+        count = int(rng.integers(2, 6)) if n % 4 else int(rng.integers(3, 6))
         shape = tuple(int(rng.integers(1, 6)) for _ in range(dim))
         dims = [float(10 ** rng.uniform(-1, 1)) for _ in range(dim)]
         origs = []
@@ -366,6 +370,8 @@ def run_shard(spec, R):
         dates = [t0 + timedelta(seconds=int(s), microseconds=int(rng.integers(0, 10**6)))
                  for s in np.cumsum(rng.integers(1, int(rng.choice([5000, 400000])), size=count))]
         times = [float(t) for t in np.cumsum(rng.integers(1, 100, size=count))]
+        if n % 2 == 0:
+            times = [t - times[0] for t in times]  # relative times starting at exactly 0
         offsets = [0.0] + [float(rng.choice([0.0, 0.0, 5.0, 12.5])) for _ in range(count - 1)]
         for k, im in enumerate(origs):
             if time_kind == "date":
